@@ -89,7 +89,7 @@ class ProcessorBoom(Exception):
 
 class Inst:
     __slots__ = ("k", "g", "key", "coro", "task", "started", "timed_out", "got_eos", "proc_raised",
-                 "exit", "waiting", "wait_since", "wait_timeout", "busy", "in_wait", "timeout_took", "last_got", "t_created", "t_spawn",
+                 "exit", "waiting", "wait_since", "wait_timeout", "busy", "in_wait", "timeout_took", "last_got", "first_wait", "t_created", "t_spawn",
                  "t_exit", "t_left", "p_spawn", "p_left", "waiters", "obj")
 
     def __init__(self, k: int, g: int, key: Any) -> None:
@@ -102,6 +102,7 @@ class Inst:
         self.in_wait = False          # inside `wait_for(backlog.get(), …)`
         self.timeout_took = False     # took an item synchronously in the TimeoutError branch
         self.last_got: Any = None
+        self.first_wait = True        # the task's first step has not reached its first wait_for yet
         self.wait_since = self.wait_timeout = 0.0
         self.t_created = self.t_spawn = self.t_exit = self.t_left = None
         self.p_spawn = self.p_left = None
@@ -445,6 +446,9 @@ class Observer:
         inst = self.by_task.get(asyncio.current_task())
         if inst is None:
             return await asyncio.wait_for(fut, timeout)
+        if inst.first_wait:
+            inst.first_wait = False
+            self.label(["start", inst.k, inst.g])
         if inst.timed_out:
             inst.timed_out = False
             self.anomalies.append(f"worker ({inst.k},{inst.g}) re-waits after a timeout on a filled queue "
